@@ -97,6 +97,35 @@ type Tree struct {
 	Kids []Tree
 }
 
+// records / tuples / unions whose only non-basic component is a union: Go calls such a struct
+// "comparable" although == panics when the interface holds a slice-carrying case
+type RecWithUnion struct {
+	N int
+	U U
+}
+
+type lowerWithUnion struct {
+	n string
+	u U
+}
+
+type W interface {
+	W_Union()
+}
+
+func (W_Wrap) W_Union() {}
+func (W_Pair) W_Union() {}
+func (W_None) W_Union() {}
+
+type W_Wrap struct {
+	Value U
+}
+type W_Pair struct {
+	Value frt.Tuple2[int, U]
+}
+type W_None struct {
+}
+
 // --- root types -------------------------------------------------------------
 
 type root struct {
@@ -127,6 +156,8 @@ var roots = []root{
 	reg[[]RecU]("[]RecU"), reg[[]recl]("[]recl"), reg[[]U]("[]U"),
 	reg[[]frt.Tuple2[int, string]]("[](int*string)"),
 	reg[[]Opt[[]int]]("[]Opt<[]int>"), reg[[]Nest]("[]Nest"),
+	reg[RecWithUnion]("RecWithUnion"), reg[lowerWithUnion]("lowerWithUnion"), reg[frt.Tuple2[int, U]]("int*U"),
+	reg[frt.Tuple3[U, string, U]]("U*string*U"), reg[W]("W"), reg[Opt[U]]("Opt<U>"), reg[G[U]]("G<U>"), reg[[]RecWithUnion]("[]RecWithUnion"),
 }
 
 func rootByName(n string) *root {
@@ -146,6 +177,8 @@ var unionCases = map[reflect.Type][]reflect.Type{
 	reflect.TypeOf((*Opt[int])(nil)).Elem():   {reflect.TypeOf(Opt_Some[int]{}), reflect.TypeOf(Opt_None[int]{})},
 	reflect.TypeOf((*Opt[recl])(nil)).Elem():  {reflect.TypeOf(Opt_Some[recl]{}), reflect.TypeOf(Opt_None[recl]{})},
 	reflect.TypeOf((*Opt[[]int])(nil)).Elem(): {reflect.TypeOf(Opt_Some[[]int]{}), reflect.TypeOf(Opt_None[[]int]{})},
+	reflect.TypeOf((*Opt[U])(nil)).Elem():     {reflect.TypeOf(Opt_Some[U]{}), reflect.TypeOf(Opt_None[U]{})},
+	reflect.TypeOf((*W)(nil)).Elem():          {reflect.TypeOf(W_Wrap{}), reflect.TypeOf(W_Pair{}), reflect.TypeOf(W_None{})},
 }
 
 // --- model ---------------------------------------------------------------------
